@@ -53,4 +53,47 @@ def iter (script : List Resp) (stop : Option Nat) : Out String := scanFrom id sc
 /-- `for k, v := range s.Iter2()` -/
 def iter2 (script : List Resp) (stop : Option Nat) : Out (String × String) := scanFrom pairs script 0 stop
 
+/-! ### several iterations over the same Scanner
+
+`Iter()`/`Iter2()` return re-usable `iter.Seq` values over one `*Scanner`. Besides `next` the only
+field of the struct is `err`; `scan` assigns it (`e, s.err = s.next(0)`) before reading anything, and
+the cursor it follows is a local of the closure. The state is threaded explicitly so that
+"an iteration does not depend on what happened before" is a theorem, not a convention. -/
+
+/-- the mutable fields of a `Scanner` -/
+structure St where
+  err : Option String
+  deriving Repr, DecidableEq
+
+inductive Req where
+  | iter (stop : Option Nat)
+  | iter2 (stop : Option Nat)
+  deriving Repr, DecidableEq
+
+inductive Res where
+  | items (o : Out String)
+  | pairs (o : Out (String × String))
+  deriving Repr, DecidableEq
+
+/-- one `for … range s.Iter()` / `s.Iter2()` on a Scanner in state `st`: the loop starts with
+    `s.next(0)` and leaves the last error in `s.err` -/
+def runReq (_st : St) (script : List Resp) : Req → Res × St
+  | .iter stop => let o := iter script stop; (.items o, ⟨o.err⟩)
+  | .iter2 stop => let o := iter2 script stop; (.pairs o, ⟨o.err⟩)
+
+/-- consecutive iterations over the same Scanner; the server answers every iteration from the same script -/
+def runSeq (st : St) (script : List Resp) : List Req → List Res × St
+  | [] => ([], st)
+  | r :: rs =>
+    let a := runReq st script r
+    let b := runSeq a.2 script rs
+    (a.1 :: b.1, b.2)
+
+/-- the cursors a complete iteration requests (the last one may be answered by eof);
+    a cursor-keyed server equals the scripted one iff these are pairwise distinct -/
+def reqCursors : List Resp → Nat → List Nat
+  | [], cur => [cur]
+  | .err _ :: _, cur => [cur]
+  | .page c _ :: rest, cur => if c = 0 then [cur] else cur :: reqCursors rest c
+
 end Rv.Scanner
